@@ -160,7 +160,8 @@ def one_case(ctx, prog, spec=None, label="gen"):
             swarm, by_instance = False, None
 
     wire_cfg = {"fom_is_ll": cfg["fom_is_ll"], "chi": cfg["chi"], "history": cfg["history"], "resample": f2h(cfg["resample"])}
-    req = {"p": "C04", "comp": comp, "lims": lims, "asserts": wire_asserts, "priors": pdesc, "cfg": wire_cfg,
+    import c04_logprior
+    req = {"p": "C04", "comp": comp, "lims": lims, "asserts": wire_asserts, "priors": pdesc, "prior_table": c04_logprior.prior_table(comp), "cfg": wire_cfg,
            "calls": [{"v": [f2h(x) for x in c["v"]], "o": wire_outcome(c["o"])} for c in calls], "pyswarms": pyswarms}
     ans = ctx.lean.ask(req)
     case = {"program": prog, "spec": {"cfg": cfg, "calls": calls, "pyswarms": pyswarms, "reuse_buffer": reuse_buffer, "swarm": swarm}, "label": label}
@@ -168,6 +169,11 @@ def one_case(ctx, prog, spec=None, label="gen"):
         ctx.disagree("driver", case, None, ans)
         return
 
+    c04_logprior.logprior_clause(ctx, model, comp, [c["v"] for c in calls], case)
+    if not pyswarms:
+        import sys
+        import c04_resume
+        c04_resume.resume_clause(ctx, sys.modules[__name__], model, priors, H, prog_asserts, req, cfg, calls, case, spec=(spec or {}).get("resume"))
     analysis = ScriptedAnalysis()
     analysis.wrap = (spec or {}).get("wrap") or rng.choice(["float", "float", "np.float64", "0-d array"])
     case["spec"]["wrap"] = analysis.wrap
@@ -315,6 +321,8 @@ def run(ctx):
         prog = c03.add_assertions(ctx.rng, prog, n_max=3)
         one_case(ctx, prog)
     searches_resample_value(ctx)
+    import c04_table
+    c04_table.run_table(ctx)
 
 
 class _HalfRejecting(af.Analysis):
@@ -405,4 +413,7 @@ def replay(ctx, payload):
     case = payload.get("case") or payload.get("disagreements", [{}])[0].get("case")
     if case.get("label") == "search-resample":
         return searches_resample_value(ctx)
+    if case.get("label") in ("table", "row"):
+        import c04_table
+        return c04_table.run_table(ctx)
     one_case(ctx, case["program"], case.get("spec"), label="replay")
